@@ -51,7 +51,22 @@ def experiment(draw, run_id, mode, ndet, transposed):
         e["efix"] = [draw(st.floats(0.01, 1000)) for _ in range(ndet)]
         e["en"] = [[draw(st.floats(-100, 100)) for _ in range(nen)] for _ in range(ndet)]
         e["transposed"] = transposed
+    # stored dtype of the numeric members (seeded/C12-s3: a float32 efix written as it is).  The case
+    # holds values that the dtype represents exactly, so the expectations do not depend on it.
+    e["num_dtype"] = nd = draw(st.sampled_from(["float64", "float64", "float64", "float32", "int64"]))
+    if nd != "float64":
+        e["efix"] = _quantise(e["efix"], nd, lo=1.0)
+        e["en"] = _quantise(e["en"], nd)
+        for a in ("psi", "omega", "dpsi", "gl", "gs"):
+            e[a][0] = _quantise(e[a][0], nd)
     return e
+
+
+def _quantise(v, dtype, lo=None):
+    if isinstance(v, list):
+        return [_quantise(x, dtype, lo) for x in v]
+    q = float(np.float32(v)) if dtype == "float32" else float(round(v))
+    return max(q, lo) if lo is not None else q
 
 
 @st.composite
@@ -145,6 +160,9 @@ def sqw_programs(draw, tier="quick", force_pix=False):
     if "instrument" in calls:
         case["instrument"] = {"name": draw(any_text), "source_name": draw(short_text),
                               "target_name": draw(short_text), "frequency": draw(st.floats(0.1, 1000))}
+        case["instrument"]["freq_dtype"] = fd = draw(st.sampled_from(["float64", "float64", "float32", "int64"]))
+        if fd != "float64":
+            case["instrument"]["frequency"] = _quantise(case["instrument"]["frequency"], fd, lo=1.0)
     if "sample" in calls:
         case["sample"] = {"name": draw(any_text),
                           "alatt": [draw(vec3(st.floats(0.5, 20))), draw(st.sampled_from(["angstrom", "nm"]))],
@@ -192,17 +210,19 @@ def make_experiment(e):
     import scipp as sc
     from scippneutron.io.sqw import EnergyMode, SqwIXExperiment
 
+    nd = e.get("num_dtype", "float64")
     if e["mode"] == "direct":
-        efix = sc.scalar(e["efix"], unit=e["e_unit"])
-        en = sc.array(dims=["energy_transfer"], values=e["en"], unit=e["en_unit"])
+        efix = sc.scalar(e["efix"], unit=e["e_unit"]).to(dtype=nd)
+        en = sc.array(dims=["energy_transfer"], values=e["en"], unit=e["en_unit"]).to(dtype=nd)
         mode = EnergyMode.direct
     else:
-        efix = sc.array(dims=["detector"], values=e["efix"], unit=e["e_unit"])
-        en = sc.array(dims=["detector", "energy_transfer"], values=np.asarray(e["en"], dtype=float), unit=e["en_unit"])
+        efix = sc.array(dims=["detector"], values=e["efix"], unit=e["e_unit"]).to(dtype=nd)
+        en = sc.array(dims=["detector", "energy_transfer"], values=np.asarray(e["en"], dtype=float),
+                      unit=e["en_unit"]).to(dtype=nd)
         if e.get("transposed"):
             en = en.transpose(["energy_transfer", "detector"]).copy()
         mode = EnergyMode.indirect
-    ang = {a: sc.scalar(e[a][0], unit=e[a][1]) for a in ("psi", "omega", "dpsi", "gl", "gs")}
+    ang = {a: sc.scalar(e[a][0], unit=e[a][1]).to(dtype=nd) for a in ("psi", "omega", "dpsi", "gl", "gs")}
     return SqwIXExperiment(run_id=e["run_id"], efix=efix, emode=mode, en=en, u=sc.vector(e["u"]), v=sc.vector(e["v"]),
                            filename=e["filename"], filepath=e["filepath"], **ang)
 
@@ -262,7 +282,8 @@ def write(case, calls=None, tmpdir=None):
             i = case["instrument"]
             builder = builder.add_default_instrument(SqwIXNullInstrument(
                 name=i["name"], source=SqwIXSource(name=i["source_name"], target_name=i["target_name"],
-                                                   frequency=sc.scalar(i["frequency"], unit="Hz"))))
+                                                   frequency=sc.scalar(i["frequency"], unit="Hz").to(
+                                                       dtype=i.get("freq_dtype", "float64")))))
         elif c == "sample":
             s = case["sample"]
             builder = builder.add_default_sample(SqwIXSample(
@@ -325,6 +346,10 @@ def labels_of(case):
         labs.append("mode:" + case["runs"][0]["mode"])
         if any(case["pix"]["units"][r] not in ("1/angstrom", "meV", "count") for r in case["pix"]["units"]):
             labs.append("pixel-unit-conversion")
+        for nd in sorted({e.get("num_dtype", "float64") for e in case["runs"]}):
+            labs.append("experiment-dtype:" + nd)
+    if "instrument" in case:
+        labs.append("frequency-dtype:" + case["instrument"].get("freq_dtype", "float64"))
     return labs
 
 
